@@ -205,6 +205,22 @@ def handle (j : Json) : Except String Json := do
     | "content" => pure (jArr (qs.map (fun v => jOptStr (quoteVal Site.content.q Site.content.qe dflt v))))
     | "none" => pure (jArr (qs.map (fun v => jOptStr (convertVal v))))
     | _ => throw "bad site"
+  | "repitem" =>
+    -- [[length, consumed, attr], …] → the repeat attribute as text (or the exception class)
+    let qs ← (← j.getObjVal? "qs").getArr?
+    let outs ← qs.toList.mapM (fun q => do
+      let a ← q.getArr?
+      match a.toList with
+      | [l, c, .str attr] => do
+        let r : RepItem := { length := (← l.getNat?), consumed := (← c.getNat?) }
+        match repItemAttr r attr { log := #[] } with
+        | (.ok (.cint i), _) => pure (Json.str (toString i))
+        | (.ok (.int i), _) => pure (Json.str (toString i))
+        | (.ok (.cstr t), _) => pure (jStr t)
+        | (.raised e, _) => pure (Json.mkObj [("exc", Json.str e.cls)])
+        | _ => pure (Json.str "<unsupported>")
+      | _ => throw "bad repitem query")
+    pure (jArr outs)
   | "scope" =>
     -- ops on utils.Scope: [["new", [[k,v],…]], ["copy", i], ["set", i, k, v], ["del", i, k], ["setglobal", i, k, v],
     --                      ["get", i, k], ["iter", i], ["update", i, [[k,v],…]]]
